@@ -287,10 +287,10 @@ func spec_wfChunk(v *Protocol, chunk *chunkStream, format formatType) bool {
 	if v.r == nil || chunk == nil || format > 3 {
 		return false
 	}
-	if chunk.cid != chunk.header.betterCid || chunk.header.Timestamp >= 1<<31 {
+	if chunk.cid != chunk.header.betterCid || chunk.header.Timestamp >= 1<<31 || chunk.header.payloadLength >= 1<<24 {
 		return false
 	}
-	return chunk.message == nil || chunk.message.payloadLength == chunk.header.payloadLength
+	return chunk.message == nil || len(chunk.message.Payload) < int(chunk.header.payloadLength)
 }
 
 //@ requires (*Protocol).readMessageHeader
@@ -407,6 +407,24 @@ func ens_rmh_timestampExtDelta(v *Protocol, chunk *chunkStream, old_chunk chunkS
 	return chunk.header.Timestamp == (old_chunk.header.Timestamp+uint64(spec_be32(r, p+spec_mhLen(format))))&0x7fffffff
 }
 
+// the per-chunk-stream state stays consistent; a message started by this header is a new, empty one
+func prim_freshobj_message(m *Message) bool { return true }
+
+//@ ensures (*Protocol).readMessageHeader C02.mh.state
+func ens_rmh_state(chunk *chunkStream, old_chunk chunkStream, err error) bool {
+	if err != nil {
+		return true
+	}
+	h := chunk.header
+	if chunk.cid != old_chunk.cid || h.Timestamp >= 1<<31 || h.payloadLength >= 1<<24 || chunk.message == nil {
+		return false
+	}
+	if old_chunk.message == nil {
+		return len(chunk.message.Payload) == 0 && prim_freshobj_message(chunk.message)
+	}
+	return h.payloadLength == old_chunk.header.payloadLength
+}
+
 //@ ensures (*Protocol).readMessageHeader C08.rtmp.read-message-header
 func ens_rmh_err(err error) bool { return spec_errKeepsRoot(err) }
 
@@ -429,20 +447,37 @@ func spec_wfChunkState(c *chunkStream) bool {
 		return false
 	}
 	m := c.message
-	return m == nil || m.payloadLength == c.header.payloadLength && len(m.Payload) < int(m.payloadLength)
+	return m == nil || len(m.Payload) < int(c.header.payloadLength)
+}
+
+func prim_mapall2_chunks(m map[chunkID]*chunkStream, f func(k1, k2 chunkID, c1, c2 *chunkStream) bool) bool {
+	for k1, c1 := range m {
+		for k2, c2 := range m {
+			if k1 != k2 && !f(k1, k2, c1, c2) {
+				return false
+			}
+		}
+	}
+	return true
 }
 
 // the reader side of a Protocol as NewProtocol builds it and ReadMessage maintains it
 func spec_wfReader(v *Protocol) bool {
 	return v.r != nil && v.input.opt != nil && v.input.chunks != nil &&
-		prim_mapall_chunks(v.input.chunks, func(k chunkID, c *chunkStream) bool { return spec_wfChunkState(c) })
+		prim_mapall_chunks(v.input.chunks, func(k chunkID, c *chunkStream) bool { return spec_wfChunkState(c) }) &&
+		// separation: distinct chunk streams have distinct state objects and reassemble distinct messages
+		prim_mapall2_chunks(v.input.chunks, func(k1, k2 chunkID, c1, c2 *chunkStream) bool {
+			return c1 != c2 && (c1.message == nil || c1.message != c2.message)
+		})
 }
 
 //@ requires (*Protocol).ReadMessage
 func req_ReadMessage(v *Protocol) bool { return spec_wfReader(v) }
 
 //@ invariant (*Protocol).ReadMessage 0
-func inv_ReadMessage(v *Protocol) bool { return spec_wfReader(v) }
+func inv_ReadMessage(v *Protocol, m *Message, err error) bool {
+	return spec_wfReader(v) && err == nil && (m == nil || len(m.Payload) == int(m.payloadLength))
+}
 
 // a message is only ever returned complete (never truncated), and with a nil error
 //@ ensures (*Protocol).ReadMessage C01.read.message-complete C08.rtmp.read-message.complete
